@@ -13,7 +13,10 @@ from .report import Reporter
 
 def analyse(prop, root='/repo', tier='quick', seed=0, program=None):
     """run the rules of one property on the tree under root; returns the Reporter (no output, no files)."""
-    P = program or Program(root)
+    if program is None:
+        from .normalise import canonical_program
+        program = canonical_program(root)
+    P = program
     from . import paths
     paths.PROGRAM = P
     paths._FM.clear()
